@@ -58,7 +58,7 @@ pub struct Violation {
 }
 
 const MAX_VIOLATIONS_PER_CHUNK: usize = 40;
-const MAX_SAMPLES_PER_CHUNK: usize = 3;
+const MAX_SAMPLES_PER_CHUNK: usize = 4;
 
 /// What a worker accumulates between two checkpoints.
 #[derive(Default, Debug)]
@@ -69,6 +69,8 @@ pub struct Acc {
     pub counters: BTreeMap<String, u64>,
     pub violations: Vec<Violation>,
     pub violation_count: u64,
+    /// every violation counted by signature (not capped, unlike `violations`)
+    pub signatures: BTreeMap<String, u64>,
     pub samples: Vec<Value>,
     sample_budget: usize,
 }
@@ -113,6 +115,7 @@ impl Acc {
     ) {
         self.violation_count += 1;
         let signature = signature.into();
+        *self.signatures.entry(signature.clone()).or_insert(0) += 1;
         // keep at most a few per signature so that one noisy class cannot hide another
         let same = self
             .violations
@@ -146,6 +149,7 @@ impl Acc {
             "o": self.outcomes,
             "c": self.counters,
             "vc": self.violation_count,
+            "vs": self.signatures,
             "v": self.violations.iter().map(|v| json!({"s": v.signature, "m": v.message, "c": v.case})).collect::<Vec<_>>(),
             "s": self.samples,
         })
@@ -165,6 +169,11 @@ impl Acc {
             }
         }
         self.violation_count += v["vc"].as_u64().unwrap_or(0);
+        if let Some(o) = v["vs"].as_object() {
+            for (k, c) in o {
+                *self.signatures.entry(k.clone()).or_insert(0) += c.as_u64().unwrap_or(0);
+            }
+        }
         if let Some(vs) = v["v"].as_array() {
             for x in vs {
                 let sig = x["s"].as_str().unwrap_or("").to_string();
@@ -181,7 +190,7 @@ impl Acc {
         }
         if let Some(ss) = v["s"].as_array() {
             for s in ss {
-                if self.samples.len() < 6 {
+                if self.samples.len() < 12 {
                     self.samples.push(s.clone());
                 }
             }
@@ -544,6 +553,8 @@ impl Run {
             inflight: Option<u64>,
             careful: bool,
             last: Instant,
+            /// CPU seconds of the child at its last sign of life
+            last_cpu: f64,
             done: bool,
             generation: u64,
         }
@@ -591,6 +602,7 @@ impl Run {
             w.checkpoint = from_i;
             w.inflight = None;
             w.last = Instant::now();
+            w.last_cpu = 0.0;
         };
 
         let mut ws: Vec<W> = (0..nworkers)
@@ -600,6 +612,7 @@ impl Run {
                 inflight: None,
                 careful: false,
                 last: Instant::now(),
+                last_cpu: 0.0,
                 done: false,
                 generation: 0,
             })
@@ -634,6 +647,9 @@ impl Run {
                         continue;
                     }
                     w.last = now;
+                    if let Some(c) = w.child.as_ref().and_then(|c| child_cpu_s(c.id())) {
+                        w.last_cpu = c;
+                    }
                     if let Some(rest) = line.strip_prefix("I ") {
                         w.inflight = rest.trim().parse().ok();
                     } else if let Some(rest) = line.strip_prefix("A ") {
@@ -714,7 +730,24 @@ impl Run {
                     ));
                     continue;
                 }
-                if now.duration_since(w.last) > timeout {
+                // A hang is judged on the CPU time the worker burnt without a sign of life (so an
+                // overloaded machine cannot fake one); a worker that neither reports nor runs
+                // (blocked, deadlocked) is given ten times that in wall-clock time.
+                let silent = now.duration_since(w.last);
+                let hung = if silent > timeout {
+                    let cpu = w
+                        .child
+                        .as_ref()
+                        .and_then(|c| child_cpu_s(c.id()))
+                        .map(|c| c - w.last_cpu);
+                    match cpu {
+                        Some(c) => c > fam.item_timeout_s || silent > timeout * 10,
+                        None => true,
+                    }
+                } else {
+                    false
+                };
+                if hung {
                     if let Some(mut c) = w.child.take() {
                         let _ = c.kill();
                         let _ = c.wait();
@@ -726,7 +759,7 @@ impl Run {
                         total.violation(
                             crash_sig(item, "hang"),
                             format!(
-                                "no result within {:.0}s while executing this item",
+                                "no result after {:.0}s of CPU time (or 10x that in wall-clock time) while executing this item",
                                 fam.item_timeout_s
                             ),
                             || {
@@ -860,7 +893,7 @@ impl Run {
         let nontrivial: u64 = self.reports.iter().map(|r| r.acc.nontrivial).sum();
         let mut samples: Vec<Value> = vec![];
         for r in &self.reports {
-            for s in r.acc.samples.iter().take(3) {
+            for s in r.acc.samples.iter().take(4) {
                 samples.push(json!({"family": r.name, "case": s}));
             }
         }
@@ -882,6 +915,7 @@ impl Run {
                     "outcomes": r.acc.outcomes,
                     "counters": r.acc.counters,
                     "violations": r.acc.violation_count,
+                    "violation_signatures": r.acc.signatures,
                     "engine_crashes_or_hangs": r.crashes,
                     "workers": r.workers,
                     "wall_s": (r.wall_s * 1000.0).round() / 1000.0,
@@ -985,6 +1019,17 @@ impl Run {
         }
         std::process::exit(EXIT_OK);
     }
+}
+
+/// CPU seconds (user + system) a child has consumed so far, from /proc (Linux, 100 Hz ticks).
+fn child_cpu_s(pid: u32) -> Option<f64> {
+    let stat = std::fs::read_to_string(format!("/proc/{pid}/stat")).ok()?;
+    // the command name may contain spaces: fields start after the last ')'
+    let rest = &stat[stat.rfind(')')? + 2..];
+    let f: Vec<&str> = rest.split(' ').collect();
+    let utime: f64 = f.get(11)?.parse().ok()?;
+    let stime: f64 = f.get(12)?.parse().ok()?;
+    Some((utime + stime) / 100.0)
 }
 
 fn same_case(a: &Value, b: &Value) -> bool {
